@@ -25,6 +25,8 @@ import (
 //  S3  the group's only alert has resolved; at the same instant its flush (-> delete -> destroy), the
 //      maintenance sweep and the insertion of a new alert B with the same group labels run
 //  S4  as S3 but the inserted alert is the SAME alert firing again (re-fire during the resolved flush)
+//  S5  (C01 only) the dispatcher's start timer fires (waiting_to_start -> running, start all existing
+//      groups) at the instant an alert that opens a NEW group arrives through the subscription
 // Oracle after the schedule and a free-running horizon: the inserted alert sits in exactly one
 // aggregation group that is in the map, not destroyed and running; the group counters equal the
 // number of mapped groups; nothing was given up; it is notified as firing within the bound; no two
@@ -54,10 +56,17 @@ func sgExec(t *testing.T, p sgPart, prefix []int, expect []string, trace bool) (
 		var f *vFixture
 		s.Do(func() { f = newVFixture(0, 11*time.Second) })
 		f.stage.yield = true
-		go f.d.Run(time.Now())
+		startIn := time.Duration(0)
+		if p.scen == "S5" {
+			startIn = 2 * time.Second
+		}
+		go f.d.Run(time.Now().Add(startIn))
 		s.Drive()
 		time.Sleep(time.Second)
 		s.Drive()
+		if p.scen == "S5" {
+			time.Sleep(time.Second) // the start timer has fired; its goroutine waits for the scheduler
+		}
 		ctx := context.Background()
 		now := time.Now()
 		ms := time.Millisecond
@@ -70,6 +79,16 @@ func sgExec(t *testing.T, p sgPart, prefix []int, expect []string, trace bool) (
 			target = []*alert.Alert{a1, b1}
 			s.SetBranching(true)
 			done := s.Go(func() { f.alerts.Put(ctx, a1); f.alerts.Put(ctx, b1) })
+			if left := s.Drive(); left != 0 {
+				x.Violation, x.Detail = "deadlock", s.Blocked()
+			}
+			s.SetBranching(false)
+			<-done
+		case "S5":
+			a1 := vAlert("A", "1", "1", now, now.Add(time.Hour), now, false)
+			target = []*alert.Alert{a1}
+			s.SetBranching(true)
+			done := s.Go(func() { f.alerts.Put(ctx, a1) })
 			if left := s.Drive(); left != 0 {
 				x.Violation, x.Detail = "deadlock", s.Blocked()
 			}
@@ -188,6 +207,9 @@ var _ model.Fingerprint
 func testSchedGroups(t *testing.T, prop string) {
 	shard, nsh := rep.Shard()
 	parts := []sgPart{{"S2"}, {"S3"}, {"S4"}}
+	if prop == "C01" {
+		parts = append(parts, sgPart{"S5"})
+	}
 	bound := 2
 	if rep.Thorough() {
 		bound = 3
